@@ -235,6 +235,9 @@ func main() {
 			if i < 4 { // fixed shapes first: eight empty units, a first unit of length 0, a last unit of length 255, a single unit of length 255
 				n = []int{8, 3, 3, 1}[i]
 			}
+			if i == 4 || i == 5 { // a list longer than 256 octets: a 200-octet unit followed by a 100-octet one, and three units of 255
+				n = 2 + (i - 4)
+			}
 			var ids []int
 			var contents [][]int
 			for j := 0; j < n; j++ {
@@ -244,8 +247,10 @@ func main() {
 				switch {
 				case i == 0, i == 1 && j == 0:
 					l = 0
-				case i == 2 && j == n-1, i == 3:
+				case i == 2 && j == n-1, i == 3, i == 5:
 					l = 255
+				case i == 4:
+					l = []int{200, 100}[j]
 				}
 				u.Contents = ev.Bytes(r, l)
 				u.LengthOfContents = uint8(l)
@@ -299,6 +304,22 @@ func main() {
 			})
 			emit(ev.M{"ev": "PcoHelpers", "ip4": ev.Ints(ip4.To4()), "ip6": ev.Ints(ip6), "mtu": mtu, "bytes": ev.Ints(b),
 				"panic": p != "", "err": e1 != nil || e2 != nil || e3 != nil})
+			// a primary and a secondary DNS server of each family: two containers with the same identifier (TS 24.008 10.5.6.3)
+			{
+				ip4b, ip6b := net.IP(ev.Bytes(r, 4)), net.IP(ev.Bytes(r, 16))
+				pc := nasConvert.NewProtocolConfigurationOptions()
+				var bb []byte
+				var f1, f2, f3, f4 error
+				pp := ev.Catch(func() {
+					f1 = pc.AddDNSServerIPv4Address(ip4)
+					f2 = pc.AddDNSServerIPv4Address(ip4b)
+					f3 = pc.AddDNSServerIPv6Address(ip6)
+					f4 = pc.AddDNSServerIPv6Address(ip6b)
+					bb = pc.Marshal()
+				})
+				emit(ev.M{"ev": "PcoDns", "ip4": ev.Ints(ip4.To4()), "ip4b": ev.Ints(ip4b.To4()), "ip6": ev.Ints(ip6), "ip6b": ev.Ints(ip6b), "bytes": ev.Ints(bb),
+					"panic": pp != "", "err": f1 != nil || f2 != nil || f3 != nil || f4 != nil})
+			}
 		}
 		// DNN
 		for _, l := range []int{0, 1, 8, 63, 100} {
